@@ -264,6 +264,8 @@ pub struct Cfg {
     pub events: bool,
     /// Clients whose app is built with one extra replication rule (a different protocol).
     pub mismatch: Vec<usize>,
+    /// Replicate `F` with a deserialization function that rejects poisoned values.
+    pub with_f: bool,
     /// Register `OwnedBy` as a second synchronized relationship.
     pub with_owner: bool,
     /// The client's connection status and its incoming messages are applied by a system in
@@ -296,6 +298,7 @@ impl Default for Cfg {
             mismatch: vec![],
             hist: false,
             with_owner: false,
+            with_f: false,
             backend_style: false,
         }
     }
@@ -319,6 +322,23 @@ fn backend_receive(mut inbox: ResMut<Inbox>, mut client: ResMut<RepliconClient>)
     for (ch, bytes) in inbox.msgs.drain(..) {
         client.insert_received(ch, bytes);
     }
+}
+
+/// A component whose deserialization function rejects "poisoned" values (last payload byte is
+/// not the end marker). It is invisible to snapshots, views and wire scans: it only exercises
+/// the client's error paths.
+#[derive(Component, Serialize, Deserialize, Clone, PartialEq, Debug)]
+pub struct F(pub Val);
+
+fn deserialize_f(
+    ctx: &mut bevy_replicon::shared::replication::replication_registry::ctx::WriteCtx,
+    message: &mut Bytes,
+) -> bevy::ecs::error::Result<F> {
+    let f: F = bevy_replicon::shared::replication::replication_registry::rule_fns::default_deserialize(ctx, message)?;
+    if f.0[4] != MAGIC_END {
+        return Err("poisoned value refused by the game's deserialization function".into());
+    }
+    Ok(f)
 }
 
 /// A second relationship type (not replicated itself) registered for synchronized replication.
@@ -445,6 +465,10 @@ pub fn build_app_with(cfg: &Cfg, extra_rule: bool) -> App {
     }
     if cfg.with_owner {
         app.sync_related_entities::<OwnedBy>();
+    }
+    if cfg.with_f {
+        use bevy_replicon::shared::replication::replication_registry::rule_fns::{RuleFns, default_serialize};
+        app.replicate_with(RuleFns::new(default_serialize::<F>, deserialize_f));
     }
     if cfg.track {
         app.track_mutate_messages();
@@ -672,6 +696,8 @@ pub enum Op {
     InsRef(u8, u8),
     SetParent(u8, u8),
     ClearParent(u8),
+    /// Insert `F` with a value the client's deserialization function refuses.
+    InsPoison(u8),
     /// The second relationship: `OwnedBy(owner)` on slot.
     SetOwner(u8, u8),
     ClearOwner(u8),
@@ -732,6 +758,7 @@ impl Op {
             Op::InsRef(s, t) => format!("insert R->e{} on e{}", t + 1, s + 1),
             Op::SetParent(s, p) => format!("set parent of e{} to e{}", s + 1, p + 1),
             Op::ClearParent(s) => format!("clear parent of e{}", s + 1),
+            Op::InsPoison(s) => format!("insert F with a value the client refuses on e{}", s + 1),
             Op::SetOwner(s, p) => format!("set owner of e{} to e{}", s + 1, p + 1),
             Op::ClearOwner(s) => format!("clear owner of e{}", s + 1),
             Op::InsBig(s, l) => format!("insert Big({l}) on e{}", s + 1),
@@ -1052,6 +1079,7 @@ impl Sim {
                     && !self.is_ancestor(s, p)
             }
             Op::ClearParent(s) => self.alive(s).is_some_and(|e| self.has_tag(e, TCHILD)),
+            Op::InsPoison(s) => self.cfg.with_f && self.alive(s).is_some_and(|e| self.server.world().get::<F>(e).is_none()),
             Op::SetOwner(s, p) => {
                 self.cfg.with_owner
                     && s != p
@@ -1300,6 +1328,10 @@ impl Sim {
             Op::ClearParent(s) => {
                 let e = self.alive(s).unwrap();
                 self.server.world_mut().entity_mut(e).remove::<ChildOf>();
+            }
+            Op::InsPoison(s) => {
+                let e = self.alive(s).unwrap();
+                self.server.world_mut().entity_mut(e).insert(F([MAGIC, s + 1, 8, v, 0x5B]));
             }
             Op::SetOwner(s, p) => {
                 let e = self.alive(s).unwrap();
@@ -1919,6 +1951,11 @@ impl Sim {
     pub fn check_confirmed(&mut self, c: usize, view: &ClientView) -> Result<(), Violation> {
         for (e, ce) in &view.ents {
             let Some(t) = ce.last_tick else { continue };
+            // An entity one of whose values the client's own deserialization function refused
+            // is in a state the property does not describe (only its neighbours are judged).
+            if self.cfg.with_f && self.server.world().get_entity(Entity::from_bits(*e)).is_ok_and(|r| r.contains::<F>()) {
+                continue;
+            }
             let key = (c, ce.client_bits);
             if let Some(&prev) = self.prev_confirmed.get(&key) {
                 if tick_older(t, prev) {
